@@ -44,7 +44,7 @@ func verifC08IsPost(ctx *fasthttp.RequestCtx) bool { return verifC08HTTPMethod =
 func verifC08ContentLength(ctx *fasthttp.RequestCtx) int {
 	return verifC08HTTPLength
 }
-func verifC08Body(ctx *fasthttp.RequestCtx) []byte { return []byte("opaque-body") }
+func verifC08Body(ctx *fasthttp.RequestCtx) []byte            { return []byte("opaque-body") }
 func verifC08SetHeader(ctx *fasthttp.RequestCtx, k, v string) {}
 func verifC08Status(ctx *fasthttp.RequestCtx) int {
 	if verifC08HTTPStatusSet {
